@@ -75,6 +75,8 @@ def cases(tier, seed):
             yield {"kind": "bound", "strategy": strat, "q": q, "N": rnd.choice([12, 25]), "jitter_val": jv, "seed": rnd.randrange(10**6)}
         for strat, b, start in itertools.product(["VariationalStrategy", "UnwhitenedVariationalStrategy"], [[], [3]], ["init", "random"]):
             yield {"kind": "ngd", "strategy": strat, "batch": b, "start": start, "N": 20, "seed": rnd.randrange(10**6)}
+        for strat, late in itertools.product(["VariationalStrategy", "UnwhitenedVariationalStrategy"], ["lr", "scheduler", "num_data"]):
+            yield {"kind": "ngd", "strategy": strat, "batch": [], "start": rnd.choice(["init", "random"]), "N": 20, "late": late, "seed": rnd.randrange(10**6)}
 
 
 _ST = {"cap": None}
@@ -647,7 +649,18 @@ def _ngd(case, ctx, g):
                 pass
     bounds, (m_opt, S_opt), (mz, Kzz, L) = _dense_bounds(m, lik, Z, X, y, strat)
     mll = gpytorch.mlls.VariationalELBO(lik, m, num_data=N)
-    opt = gpytorch.optim.NGD(m.variational_parameters(), num_data=N, lr=1.0)
+    if case.get("late") == "lr":
+        # the step size is what the optimiser holds WHEN it steps: lr assigned on the parameter group after construction
+        opt = gpytorch.optim.NGD(m.variational_parameters(), num_data=N, lr=0.05)
+        opt.param_groups[0]["lr"] = 1.0
+    elif case.get("late") == "scheduler":
+        opt = gpytorch.optim.NGD(m.variational_parameters(), num_data=N, lr=4.0)
+        sch = torch.optim.lr_scheduler.LambdaLR(opt, lambda ep: 0.25)  # (sets lr = 4 * 0.25 = 1 at construction)
+    elif case.get("late") == "num_data":
+        opt = gpytorch.optim.NGD(m.variational_parameters(), num_data=3 * N, lr=1.0)
+        opt.num_data = N
+    else:
+        opt = gpytorch.optim.NGD(m.variational_parameters(), num_data=N, lr=1.0)
     opt.zero_grad()
     with torch.autograd.set_detect_anomaly(True):
         loss = -mll(m(X), y).sum()
